@@ -294,8 +294,8 @@ def fam(family, **kw):
 
 def plan_for(prop, tier, seed):
     T = tier == "thorough"
-    run_fams = [fam("runs_exh", shards=12 if T else 6, sample=8 if T else 24), fam("runs_rand", shards=4)]
-    stream_fams = [fam("stream_exh", shards=8 if T else 4, sample=4), fam("stream_rand", shards=3)]
+    run_fams = [fam("runs_exh", shards=20 if T else 6, sample=8 if T else 24), fam("runs_rand", shards=4)]
+    stream_fams = [fam("stream_exh", shards=16 if T else 4, sample=4), fam("stream_rand", shards=3)]
     builder_fams = [fam("builder_exh", shards=10 if T else 6, sample=1 if T else 6), fam("builder_rand", shards=3),
                     fam("builder_big", shards=4)]
     P = dict(design=[], scenarios=[], families=[], report={prop}, nontrivial_keys=[], rule="", exhaustive=T)
@@ -309,13 +309,13 @@ def plan_for(prop, tier, seed):
             out += [fam("runs_exh", shards=8 if T else 3, sample=8 if T else 40, plain=True, tag="p", **kw),
                     fam("runs_rand", shards=2, plain=True, tag="p", **kw), fam("wide", shards=1, plain=True, tag="p", **kw)]
         if streams:
-            out += [fam("stream_exh", shards=4 if T else 2, sample=1 if T else 6, plain=True, tag="p"), fam("stream_rand", shards=1, plain=True, tag="p")]
+            out += [fam("stream_exh", shards=10 if T else 2, sample=1 if T else 6, plain=True, tag="p"), fam("stream_rand", shards=1, plain=True, tag="p")]
         return out
     if prop == "C01":
         P["design"] = run_sweep(tier, lambda k: k["api"] in ("for_each", "try_for_each")) + stream_sweep(tier)[:3] + builder_sweep(tier)[:1]
         P["scenarios"] = scenario_jobs(tier, lambda k: k["api"] in ("for_each", "try_for_each"))
-        P["families"] = [fam("runs_exh", shards=12 if T else 6, sample=8 if T else 24, focus="conflict"), fam("runs_rand", shards=4, focus="conflict"),
-                         fam("stream_exh", shards=6 if T else 3, sample=4 if T else 6), fam("stream_rand", shards=2),
+        P["families"] = [fam("runs_exh", shards=20 if T else 6, sample=8 if T else 24, focus="conflict"), fam("runs_rand", shards=4, focus="conflict"),
+                         fam("stream_exh", shards=12 if T else 3, sample=4 if T else 6), fam("stream_rand", shards=2),
                          fam("builder_exh", shards=3, sample=2 if T else 24), fam("scale", shards=2, focus="types", tag="ty")]
         P["nontrivial_keys"] = ["handout_concurrent"]
         P["rule"] = ("every hand-out event (start / stream item) of every recorded trace is checked against all functions in flight; "
@@ -342,24 +342,24 @@ def plan_for(prop, tier, seed):
         P["rule"] = "non-trivial = distinct traces with an idle point (Pending, not woken) or a return; every poll, return, cancel and panic event is checked"
     elif prop == "C05":
         P["design"] = stream_sweep(tier) + stream_live(tier) + stream_mutants(tier)
-        P["families"] = [fam("stream_exh", shards=12 if T else 6, sample=1), fam("stream_rand", shards=4), fam("wide", shards=2, focus="stream"),
+        P["families"] = [fam("stream_exh", shards=28 if T else 6, sample=1), fam("stream_rand", shards=4), fam("wide", shards=2, focus="stream"),
                          fam("scale", shards=1, focus="roots", tag="ro")]
         P["nontrivial_keys"] = ["stall_check_nontrivial", "dropref_while_pending"]
         P["rule"] = "non-trivial = distinct traces with a Pending poll while functions are unyielded, or an FnRef drop after a Pending poll"
     elif prop == "C06":
         P["design"] = run_sweep(tier, lambda k: k["api"] in ("for_each", "try_for_each")) + stream_sweep(tier)[:2] + builder_sweep(tier)[:1]
         P["scenarios"] = scenario_jobs(tier, lambda k: k["api"] in ("for_each", "try_for_each"))
-        P["families"] = [fam("runs_exh", shards=12 if T else 6, sample=8 if T else 12, focus="eager"), fam("runs_rand", shards=4, focus="eager"),
+        P["families"] = [fam("runs_exh", shards=20 if T else 6, sample=8 if T else 12, focus="eager"), fam("runs_rand", shards=4, focus="eager"),
                          fam("builder_exh", shards=3, sample=2 if T else 12), fam("wide", shards=3, focus="eager"),
                          fam("scale", shards=2, focus="types", tag="ty"),
                          # the quantifier includes stream*(): an idle stream with a startable function (C05's stall, read as eagerness)
-                         fam("stream_exh", shards=6 if T else 3, sample=2 if T else 6), fam("stream_rand", shards=2)]
+                         fam("stream_exh", shards=14 if T else 3, sample=2 if T else 6), fam("stream_rand", shards=2)]
         P["nontrivial_keys"] = ["idle_eager_nontrivial", "build_data_edge"]
         P["rule"] = "non-trivial = distinct traces with an idle point of an unlimited, unsignalled, failure-free concurrent call with unstarted functions, or a build with data edges"
     elif prop == "C07":
         P["design"] = run_sweep(tier, lambda k: k["api"].startswith("try")) + item_jobs(tier, "Inv_NoFailedReported")
         P["scenarios"] = scenario_jobs(tier, lambda k: k["api"].startswith("try"))
-        P["families"] = [fam("runs_exh", shards=12 if T else 6, sample=8 if T else 8, focus="try"), fam("runs_rand", shards=4, focus="try"),
+        P["families"] = [fam("runs_exh", shards=20 if T else 6, sample=8 if T else 8, focus="try"), fam("runs_rand", shards=4, focus="try"),
                          fam("wide", shards=3, focus="try"), fam("budget", shards=2, count=2000 if T else 300, focus="try"),
                          fam("budget_exh", shards=8 if T else 3, sample=1 if T else 6, focus="try")]
         P["nontrivial_keys"] = ["return_failed"]
@@ -374,8 +374,8 @@ def plan_for(prop, tier, seed):
                               view="View", workers=2, heap="3g", expect="Inv_C08_Starts")]
                        + item_jobs(tier, "Inv_ClosedAtEnd"))
         P["scenarios"] = scenario_jobs(tier, lambda k: k.get("strategy", "none") != "none")
-        P["families"] = [fam("runs_exh", shards=12 if T else 6, sample=8 if T else 12, focus="int"), fam("runs_rand", shards=4, focus="int"),
-                         fam("stream_exh", shards=6 if T else 3, sample=2 if T else 4, focus="int"), fam("stream_rand", shards=2, focus="int"),
+        P["families"] = [fam("runs_exh", shards=20 if T else 6, sample=8 if T else 12, focus="int"), fam("runs_rand", shards=4, focus="int"),
+                         fam("stream_exh", shards=16 if T else 3, sample=2 if T else 4, focus="int"), fam("stream_rand", shards=2, focus="int"),
                          fam("wide", shards=3, focus="int"), fam("budget", shards=2, count=2000 if T else 300, focus="int"),
                          # histories whose runs share one InterruptibilityState (reborrow): a signal sent during one run is pending
                          # when the next begins
@@ -392,7 +392,7 @@ def plan_for(prop, tier, seed):
     elif prop == "C10":
         P["design"] = run_sweep(tier, lambda k: k.get("limit", 0) >= 1 or k["api"] in ("fold", "try_fold")) + run_live(tier)[:1]
         P["scenarios"] = scenario_jobs(tier, lambda k: k.get("limit", 0) >= 1)
-        P["families"] = [fam("runs_exh", shards=12 if T else 6, sample=8 if T else 10, focus="limit"), fam("runs_rand", shards=4, focus="limit"),
+        P["families"] = [fam("runs_exh", shards=20 if T else 6, sample=8 if T else 10, focus="limit"), fam("runs_rand", shards=4, focus="limit"),
                          fam("wide", shards=3, focus="limit")]
         P["nontrivial_keys"] = ["handout_limited"]
         P["rule"] = "non-trivial = distinct traces with hand-outs under a limit >= 1 (folds: limit 1)"
